@@ -456,7 +456,8 @@ def f7(ctx):
         pl = [e for e in evs if e.name == 'BR' and e.data['label'] == 'futpoll' or (e.name == 'BR' and str(e.data['label']).endswith('Future::poll'))]
         outcome = pl[-1].data['outcome'] if pl else None
         if outcome == 'Pending':
-            if shape[0] != 'Pending':
+            if shape[0] != 'Pending' and p.ret != polls[0].val:
+                # (`polled.map(..)` hands the Pending value through unchanged)
                 ctx.violate(key, p, 'inner Pending is not forwarded')
             if tw:
                 ctx.violate(key, p, 'stream marks itself terminated while pending')
@@ -483,6 +484,13 @@ def f7(ctx):
                 item = r[3][0] if r is not None and r[0] == 'agg' and r[2] == 'Ready' and r[3] else None
                 if item is not None and item[0] == 'call' and item[2] == 'std::result::Result::ok' and item[3] and item[3][0] == rdy:
                     nb = [e for e in evs if e.name == 'BR' and e.data['label'] == 'opt_none' and contains(e.data['val'], item)]
+                    if not nb:
+                        # `if res.is_err() { terminated = true }` decides the same thing on the result itself
+                        ne = [e for e in evs if e.name == 'BR' and e.data['label'] in ('res_is_err', 'res_is_ok') and contains(e.data['val'], rdy)]
+                        if ne:
+                            e0 = ne[-1]
+                            isnone = (e0.data['outcome'] == 'T') == (e0.data['label'] == 'res_is_err')
+                            nb = [type('E', (), {'data': {'outcome': 'T' if isnone else 'F'}})()]
                     if not nb:
                         ctx.violate(key, p, 'the end of the stream (item == None) is not detected')
                     elif nb[-1].data['outcome'] == 'T':
